@@ -874,6 +874,9 @@ class Evaluator:
                 return ("cls", tgt.name)
             if isinstance(tgt, FunctionInfo):
                 return ("fn", tgt.qualname)
+            if isinstance(tgt, tuple) and tgt[0] == "const" and e.id in getattr(tgt[2], "rebound", ()) and tgt[2].assigns.get(e.id) is tgt[1]:
+                # a module-level name that functions rebind (``global``) or change in place holds state: its value is whatever the history left there
+                return ("global", f"{tgt[2].name}.{e.id}")
             if isinstance(tgt, tuple) and tgt[0] == "const":
                 v0 = tgt[1]
                 if isinstance(v0, ast.Call) and isinstance(v0.func, ast.Name) and v0.func.id == "object" and not v0.args and not v0.keywords:
